@@ -8,6 +8,7 @@ import SradModel.Drv.Codec
 import SradModel.Drv.Host
 import SradModel.Drv.Templ
 import SradModel.Drv.Admit
+import SradModel.Drv.Derive
 
 open Srad Srad.Drv
 
@@ -15,6 +16,7 @@ structure DState where
   reseq : Reseq.St Nat := Reseq.init
   host : HostD := {}
   templ : Templ.Registry := []
+  derive : Option Derive.Schema := none
 
 def step (st : DState) (line : String) : DState × String :=
   match words line with
@@ -26,6 +28,9 @@ def step (st : DState) (line : String) : DState × String :=
     let (h, o) := stepHost st.host rest
     ({ st with host := h }, o)
   | "admit" :: rest => (st, stepAdmit rest)
+  | "derive" :: rest =>
+    let (d, o) := stepDerive st.derive rest
+    ({ st with derive := d }, o)
   | "templ" :: rest =>
     let (r, o) := stepTempl st.templ rest
     ({ st with templ := r }, o)
